@@ -138,6 +138,11 @@ class Session:
             "tau": self.enc(kw.get("tau")),
             "limit": self.enc(kw.get("limit_sigma")),
         }
+        # the library gets its own copy of the ranks / scores lists: whether it modifies them is observed on the copy,
+        # and a driver that reuses its list for sibling calls is not contaminated by a library that does
+        for k in ("ranks", "scores"):
+            if isinstance(kw.get(k), list):
+                kw[k] = list(kw[k])
         if positional:
             kind, val, exc = self.outcome_of(lambda: mh.m.rate(teams, kw.get("ranks"), kw.get("scores"), kw.get("tau"), kw.get("limit_sigma")))
         else:
